@@ -1,4 +1,5 @@
 import MudProof.Properties.C09
+import MudProof.StepThm
 open Mud.C09
 #print axioms acc_closed_form
 #print axioms acc_fold_closed_form
@@ -15,3 +16,5 @@ open Mud.C09
 #print axioms drawZeta_then_stream
 #print axioms firstLess_spec
 #print axioms choice_slot
+#print axioms Mud.StepThm.cumStep_common
+#print axioms Mud.StepThm.cumStep_event
